@@ -10,7 +10,11 @@ pub fn run(ctx: &Ctx) -> Outcome {
     let mut patterns = sp.patterns;
     // \G / \K variants of the small trees: the skipped-empty-match flag matters only for them
     let small: Vec<_> = patterns.iter().filter(|p| p.size() <= 3).cloned().collect();
-    patterns.extend(gen::g_contexts(&small));
+    {
+        // quick: a seeded half of the variants (every context keeps dozens of fillers)
+        let (tier, seed) = (ctx.tier, ctx.seed as usize);
+        patterns.extend(gen::g_contexts(&small).into_iter().enumerate().filter(|(i, _)| tier == Tier::Thorough || (i / 15 + seed) % 2 == 0).map(|(_, p)| p));
+    }
     let texts = spaces::texts_mb(ctx.tier.pick(3, 4));
     // case-insensitive literals whose case fold has another UTF-8 length (ſ/s, K(kelvin)/k, ẞ/ß):
     // any entry point that reasons about byte lengths of the pattern must still agree with the
